@@ -380,3 +380,56 @@ func VerifC14RemoteTerminate() {
 	}
 	lib.VerifReach("remote termination delivered")
 }
+
+// VerifC12Compress: with compression enabled (each algorithm) a payload either travels as a
+// compressed frame that respects the peer's limit and unpacks to the identical payload at the
+// receiver, or is refused with ErrTooLarge and nothing is written. The payload is concrete and
+// incompressible (the compressors run inside the executor).
+func VerifC12Compress() {
+	ctype := []gen.CompressionType{gen.CompressionTypeLZW, gen.CompressionTypeZLIB, gen.CompressionTypeGZIP}[lib.VerifShard("type", 3)]
+	n := []int{40, 150, 400}[lib.VerifPick("len", 3)]
+	limit := []int{0, 120, 300}[lib.VerifPick("limit", 3)]
+	payload := make([]byte, n)
+	seed := uint32(2463534242)
+	for i := range payload {
+		seed ^= seed << 13
+		seed ^= seed >> 17
+		seed ^= seed << 5
+		payload[i] = byte(seed >> 11)
+	}
+	s, sinks := vfConnection(&vfCore{name: "a@h", creation: 11}, "b@h", 22, 1)
+	s.peer_maxmessagesize = limit
+	rCore := &vfCore{name: "b@h", creation: 22}
+	r, _ := vfConnection(rCore, "a@h", 11, 1)
+	r.node_maxmessagesize = limit
+	opts := gen.MessageOptions{Compression: gen.Compression{Enable: true, Type: ctype, Threshold: 64}}
+	from := gen.PID{Node: "a@h", ID: 5, Creation: 11}
+	to := gen.PID{Node: "b@h", ID: 6, Creation: 22}
+	err := s.SendPID(from, to, opts, payload)
+	if err != nil {
+		lib.VerifAssert(err == gen.ErrTooLarge && limit > 0, "a send is refused only because it exceeds the peer's limit")
+		lib.VerifAssert(len(sinks[0].frames) == 0, "a refused message puts nothing on the wire")
+		lib.VerifReach("refused")
+		return
+	}
+	lib.VerifAssert(len(sinks[0].frames) == 1, "an accepted message is one frame")
+	if len(sinks[0].frames) != 1 {
+		return
+	}
+	f := sinks[0].frames[0]
+	lib.VerifAssert(limit == 0 || len(f) <= limit, "what is put on the wire respects the peer's limit")
+	if n+38 > 64 {
+		lib.VerifAssert(f[7] == protoMessageZ, "a payload above the threshold travels compressed")
+	}
+	c12Deliver(r, sinks[0].all, false)
+	lib.VerifAssert(len(rCore.calls) == 1, "the compressed message is delivered exactly once")
+	if len(rCore.calls) == 1 {
+		b, ok := rCore.calls[0].message.([]byte)
+		same := ok && len(b) == n
+		for i := 0; same && i < n; i++ {
+			same = b[i] == payload[i]
+		}
+		lib.VerifAssert(same && rCore.calls[0].from.ID == 5 && rCore.calls[0].toPID.ID == 6, "the payload arrives unchanged, from the true sender to the addressee")
+	}
+	lib.VerifReach("compressed delivery")
+}
